@@ -22,6 +22,8 @@ PROP = dict(
                        "Comdex.C05.order_within_amount", "Comdex.C05.order_within_amount_after_batch",
                        "Comdex.C05.order_within_amount_step", "Comdex.C05.offered_amount_within_open",
                        "Comdex.C05.place_ok_limit_order", "Comdex.C05.order_within_amount_validated",
+                       "Comdex.C05.market_order_price_on_grid", "Comdex.C05.mm_order_ticks_on_grid",
+                       "Comdex.C05.order_within_amount_all_orders",
                        "Comdex.C05.pool_buy_amount_on_curve", "Comdex.C05.pool_sell_amount_on_curve",
                        "Comdex.C05.pool_buy_orders_within_reserves_and_curve",
                        "Comdex.C05.pool_sell_orders_within_reserves_and_curve", "Comdex.C05.pool_offers_within_reserves",
